@@ -9,6 +9,7 @@ From PngV Require Import Base.Bytes Base.Crc Base.Inflate Base.Utf8 Gen.GenStrea
 From RecordUpdate Require Import RecordSet.
 Import RecordSetNotations.
 From PngV Require Import Model.ZlibBuf Proofs.ZlibBufProofs.
+From PngV Require Import Model.UnfiltBuf Proofs.UnfiltBufProofs.
 
 (* every reachable state of the stream machine, any input, any schedule: the ledger bounds *)
 Theorem C06_ledger_bound :
@@ -69,6 +70,13 @@ Theorem C06_inflater_bound_value :
   BOUND = 2 * (LOOKBACK_SIZE * COMPACT_FACTOR + CHUNK_BUFFER_SIZE).
 Proof. exact bound_value. Qed.
 
+(* after a compaction the unfiltering buffer holds the previous row, the bytes not yet unfiltered and what was just appended - nothing that grows with the frame *)
+Theorem C06_unfiltering_buffer_size :
+  forall (u : ubuf) (prev pending new : list Z),
+       UInv u prev pending ->
+       length (ub_data (ub_append u new)) = (length prev + length pending + length new)%nat.
+Proof. exact ub_append_size. Qed.
+
 (* non-vacuity: a 1x1 image with a tEXt chunk "k\\0v" under L = 1000: 3 bytes taken from the budget, 2 bytes of text fields held *)
 Example C06_ex_text :
   let file := [137;80;78;71;13;10;26;10; 0;0;0;13; 73;72;68;82; 0;0;0;1; 0;0;0;1; 8;0;0;0;0; 58;126;155;85;
@@ -84,3 +92,4 @@ Print Assumptions C06_buffer_growth_paid.
 Print Assumptions C06_initial_state.
 Print Assumptions C06_inflater_buffer_bounded.
 Print Assumptions C06_inflater_bound_value.
+Print Assumptions C06_unfiltering_buffer_size.
